@@ -169,6 +169,11 @@ func CheckC02(c *Ctx) {
 			w.Count("packed-corner-objects")
 		})
 	}
+	// pairs of objects whose packed bytes collide under a common 32-bit hash (collide.go), serialised back to back
+	for _, api := range probe.APIs {
+		api := api
+		objCollisionPairs(c, api, func(w *Worker, a spec.Assign, i int) { objCase(w, api, a, i%NStyles) })
+	}
 	// COMPLETE: every assignment with at most 4 (thorough: 5) optional metrics defined x all their values
 	for vi, api := range probe.APIs {
 		api, vi := api, vi
